@@ -175,6 +175,10 @@ func c23Plan(p *cbPre, st c23Step) (specs []cbTicketSpec, ok bool) {
 		if st.Arg&1 == 1 {
 			att = cbN + (st.Arg/8)%(256-cbN)
 		}
+		if st.Arg&3 == 3 {
+			// far over the limit with a low octet that is a valid attempt (and a proof valid for it)
+			att = []int{256, 512, 65536, 1 << 32}[(st.Arg/4)%4] + (st.Arg/16)%cbN
+		}
 		return []cbTicketSpec{{Pos: pos, Attempt: att}}, true
 	case "bad_proof":
 		l := pick(1)
